@@ -18,10 +18,16 @@ pub mod c03;
 pub mod c05;
 #[cfg(all(kani, feature = "c17"))]
 pub mod c17;
+#[cfg(all(kani, feature = "c06"))]
+pub mod c06;
 #[cfg(all(kani, feature = "c07"))]
 pub mod c07;
+#[cfg(all(kani, feature = "c08"))]
+pub mod c08;
 #[cfg(all(kani, feature = "c09"))]
 pub mod c09;
+#[cfg(all(kani, feature = "c10"))]
+pub mod c10;
 #[cfg(all(kani, feature = "c12"))]
 pub mod c12;
 #[cfg(all(kani, feature = "c13"))]
